@@ -54,6 +54,8 @@ def materialise(tab: dict, extra_img: bool = False):
     rows = tab["rows"]
     n = len(rows)
     pos = np.array([pos_of(r["uid"]) for r in rows], dtype=np.float32).reshape(n, 3)
+    if n >= 2 and (sum(r["uid"] for r in rows) + n) % 2 == 1:
+        pos = np.asfortranarray(pos)       # e.g. np.array([zs, ys, xs]).T: the memory layout of the caller's array is not part of a table
     if n:
         rot = Rotation.concatenate([rots()[r["uid"] % 24] for r in rows])
     else:
